@@ -53,14 +53,16 @@ std::string gen_password(Rng &r)
 }
 
 // ------------------------------------------------------------------ dispatch
-J gen_hostile(uint64_t seed, const J &ov);
-World *build_hostile(const J &plan);
-J gen_model(uint64_t seed, const J &ov);
-World *build_model(const J &plan);
+J gen_hostile_srv(uint64_t seed, const J &ov);
+World *build_hostile_srv(const J &plan);
+J gen_hostile_cli(uint64_t seed, const J &ov);
+World *build_hostile_cli(const J &plan);
 
 J gen_plan(const std::string &scen, uint64_t seed, const J &ov)
 {
 	if (scen == "tunnel") return gen_tunnel(seed, ov);
+	if (scen == "hostile_srv") return gen_hostile_srv(seed, ov);
+	if (scen == "hostile_cli") return gen_hostile_cli(seed, ov);
 	J p = J::obj(); p.set("scenario", scen); p.set("seed", (long long)seed); p.set("error", "unknown scenario");
 	return p;
 }
@@ -69,12 +71,20 @@ static World *build_world(const J &plan)
 {
 	std::string scen = plan.gets("scenario");
 	if (scen == "tunnel") return build_tunnel(plan);
+	if (scen == "hostile_srv") return build_hostile_srv(plan);
+	if (scen == "hostile_cli") return build_hostile_cli(plan);
 	return nullptr;
 }
+
+static const char *g_fatelog_path = nullptr;   // child only: fired fates are appended here so that a run that dies is still replayable
 
 J run_plan(const J &plan, int verbose, const char *trace_path)
 {
 	World *w = build_world(plan);
+	if (w && g_fatelog_path) {
+		FILE *fl = fopen(g_fatelog_path, "w");
+		if (fl) w->S.on_fired = [w, fl](const std::pair<int, uint64_t> &k, const Fate &f) { std::string s = w->fate_json(k, f).dump(); fputs(s.c_str(), fl); fputc('\n', fl); fflush(fl); };
+	}
 	if (!w) { J r = J::obj(); r.set("error", "cannot build scenario " + plan.gets("scenario")); return r; }
 	w->S.verbose = verbose;
 	if (trace_path) w->S.trace = fopen(trace_path, "w");
@@ -108,7 +118,10 @@ static std::string run_child(const J &plan, int verbose, const char *trace_path,
 
 			if (__sanitizer_set_report_path) __sanitizer_set_report_path(logbase);
 		}
+		static char flp[300]; snprintf(flp, sizeof flp, "%s.fates.%d", logbase, (int)getpid());
+		g_fatelog_path = flp;
 		J r = run_plan(plan, verbose, trace_path);
+		unlink(flp);
 		std::string s = r.dump();
 		s += "\n";
 		size_t off = 0;
@@ -158,7 +171,7 @@ static std::string run_child(const J &plan, int verbose, const char *trace_path,
 			if (what.empty() && (line.find("ERROR: AddressSanitizer") != std::string::npos || line.find("runtime error:") != std::string::npos)) {
 				size_t p = line.find("ERROR: AddressSanitizer: ");
 				if (p != std::string::npos) { what = line.substr(p + 25); size_t sp = what.find(' '); if (sp != std::string::npos) what = what.substr(0, sp); what = "asan:" + what; }
-				else { p = line.find("runtime error:"); what = "ubsan:" + line.substr(p + 15); std::string loc = line.substr(0, p); size_t sl = loc.rfind("/src/"); if (sl != std::string::npos && where.empty()) { where = loc.substr(sl + 5); while (!where.empty() && (where.back() == ' ' || where.back() == ':')) where.pop_back(); } }
+				else { p = line.find("runtime error:"); what = "ubsan:" + line.substr(p + 15); }
 			}
 			if (where.empty()) {
 				size_t p = line.find("/repo/src/");
@@ -170,6 +183,13 @@ static std::string run_child(const J &plan, int verbose, const char *trace_path,
 				}
 			}
 		}
+	}
+	{
+		char path[300]; snprintf(path, sizeof path, "%s.fates.%d", logbase, (int)pid);
+		std::istringstream is(read_file(path)); std::string line; J fl = J::arr();
+		while (std::getline(is, line)) { J o; if (J::parse(line, o) && o.k == J::OBJ) fl.push(o); }
+		r.set("fired", fl);
+		unlink(path);
 	}
 	r.set("what", what); r.set("where", where);
 	r.set("log", log.substr(0, 3000));
